@@ -12,7 +12,7 @@ import random
 import sys
 import traceback
 
-from .common import Tally, jsonable
+from .common import REPO, ContractViolation, Tally, jsonable
 
 
 def _run(job):
@@ -26,8 +26,30 @@ def _run(job):
             if isinstance(v.get("case"), dict) and "_shard" not in v["case"]:
                 v["case"]["_shard"] = {"module": fn.__module__, "function": fn.__name__, "args": jsonable(list(args))}
         return ("ok", out)
+    except ContractViolation as cv:
+        return ("ok", _uncaught(fn, args, cv.key, cv.message))
+    except Exception as ex:
+        # An exception that escapes a shard is a harness failure - unless it was raised while library code was executing
+        # (a frame of the working tree under test is on the traceback): then the library raised on an input the shard
+        # considers legal at a call site that has no handler of its own, which is a violation, not a crash of the machinery.
+        frames = traceback.extract_tb(ex.__traceback__)
+        repo = os.path.realpath(REPO) + os.sep
+        lib = [f for f in frames if os.path.realpath(f.filename).startswith(repo)]
+        if lib:
+            where = lib[-1]
+            return ("ok", _uncaught(fn, args, f"exception:uncaught:{fn.__name__}:{type(ex).__name__}",
+                                    f"{type(ex).__name__}: {ex} (raised under {os.path.relpath(where.filename, repo)}:{where.lineno} {where.name})"))
+        return ("err", f"{fn.__module__}.{fn.__name__}{args!r}\n{traceback.format_exc()}")
     except BaseException:  # harness failure, never a violation
         return ("err", f"{fn.__module__}.{fn.__name__}{args!r}\n{traceback.format_exc()}")
+
+
+def _uncaught(fn, args, key, message):
+    t = Tally()
+    t.add("shards_cut_short")
+    t.violation(key, {"_shard": {"module": fn.__module__, "function": fn.__name__, "args": jsonable(list(args))},
+                      "note": "the shard stopped at this point; re-execute it to reproduce"}, message)
+    return t
 
 
 def run_shards(jobs, seed=0, workers=None) -> Tally:
